@@ -8,6 +8,7 @@ mod checks;
 mod faultrng;
 mod free;
 mod group;
+mod observe;
 mod runner;
 mod simrng;
 mod world;
@@ -200,11 +201,19 @@ fn main() {
                 "C20" => checks::c20::C20,
                 "C05" => checks::c05::C05,
                 "C16" => checks::c16::C16,
+                "C13" => checks::c13::C13,
+                "C14" => checks::c14::C14,
+                "C08" => checks::c08::C08,
+                "C12" => checks::c12::C12,
             }
         },
         "C01" => drive(&checks::c01::C01, &parse_opts(&args[1..]), vec![]),
         "C03" => drive(&checks::c03::C03, &parse_opts(&args[1..]), vec![]),
         "C05" => drive(&checks::c05::C05, &parse_opts(&args[1..]), vec![]),
+        "C13" => drive(&checks::c13::C13, &parse_opts(&args[1..]), vec![]),
+        "C08" => drive(&checks::c08::C08, &parse_opts(&args[1..]), vec![]),
+        "C12" => drive(&checks::c12::C12, &parse_opts(&args[1..]), vec![]),
+        "C14" => drive(&checks::c14::C14, &parse_opts(&args[1..]), vec![]),
         "C16" => {
             let opts = parse_opts(&args[1..]);
             if opts.child_json.is_some() {
